@@ -111,6 +111,9 @@ pub struct ConnMon {
     pub disc_cancelled: bool,
     /// the client has read a complete DISCONNECT from the broker on this connection
     pub peer_disconnect_consumed: bool,
+    /// this connection's CONNACK resumed the session with a Receive Maximum below the number of
+    /// publishes then in flight (the broker shrank its window under the client)
+    pub window_below_inflight: bool,
 }
 
 #[derive(Clone, Debug, Hash, PartialEq, Eq)]
@@ -891,9 +894,8 @@ impl Oracle {
                     let rm = self.conns[c].receive_max;
                     if self.conns[c].b_inflight > rm {
                         let excess = self.conns[c].b_inflight - rm;
-                        let lowered = self.conns[..c].iter().any(|m| m.connack.is_some_and(|k| k.1 == 0) && m.receive_max > rm);
-                        let ctx = if replayed && lowered && self.conns[c].b_replayed_unacked == self.conns[c].b_inflight {
-                            // only retransmissions are in flight and the broker shrank its window since they were first sent
+                        let ctx = if self.conns[c].window_below_inflight {
+                            // the broker resumed the session with a window smaller than what was already in flight
                             "replay-exceeds-window-lowered-by-broker".to_string()
                         } else if self.conns[c].b_rec_wait >= excess {
                             "awaiting-pubcomp".to_string()
@@ -1086,6 +1088,9 @@ impl Oracle {
                         self.connack_ok_seen = false;
                     }
                     if *session_present && !bad {
+                        let ep = self.epoch;
+                        let inflight = self.reqs.iter().filter(|r| r.live(ep) && matches!(r.kind, ReqKind::Pub1 | ReqKind::Pub2)).count() as u32;
+                        self.conns[c].window_below_inflight = inflight > rm;
                         // everything live must be replayed on this connection
                         let ep = self.epoch;
                         let list: Vec<(u8, bool)> = self
